@@ -101,17 +101,18 @@ impl BlteBuilder {
     /// Add data that will be automatically chunked
     pub fn add_data(mut self, data: &[u8]) -> BlteResult<Self> {
         if data.len() <= self.chunk_size {
-            // Single chunk
+            // Single chunk - the cipher's block index is the chunk's position in
+            // the file (decoding uses the global chunk index), not 0
             let chunk = if let Some(_encryption) = &self.encryption {
-                self.create_encrypted_chunk(data.to_vec(), 0)?
+                self.create_encrypted_chunk(data.to_vec(), self.chunks.len())?
             } else {
                 ChunkData::new(data.to_vec(), self.default_mode)?
             };
             self.chunks.push(chunk);
         } else {
-            // Multiple chunks
+            // Multiple chunks - block indices continue after the chunks already added
             let mut offset = 0;
-            let mut chunk_index = 0;
+            let mut chunk_index = self.chunks.len();
             while offset < data.len() {
                 let end = (offset + self.chunk_size).min(data.len());
                 let chunk_data = data[offset..end].to_vec();
@@ -424,6 +425,35 @@ mod tests {
             .decompress_with_keys(&key_store)
             .expect("Test operation should succeed");
         assert_eq!(decrypted, data);
+    }
+
+    #[test]
+    fn test_builder_encryption_repeated_add_data() {
+        // Block indices must continue across add_data calls (and after add_chunk):
+        // decoding uses the chunk's position in the file as the cipher block index.
+        let key_name = 0x1234_5678_90AB_CDEF;
+        let key = [0x5A; 16];
+        let spec = EncryptionSpec::salsa20(key_name, [0xFF, 0xFF, 0x01, 0x80]);
+
+        let mut key_store = TactKeyStore::empty();
+        key_store.add(TactKey::new(key_name, key));
+
+        let blte = BlteBuilder::new()
+            .with_encryption(spec, key)
+            .with_chunk_size_unchecked(4)
+            .add_chunk(ChunkData::new(b"plain".to_vec(), CompressionMode::None).expect("chunk"))
+            .add_data(b"hello")
+            .expect("Operation should succeed")
+            .add_data(b"wor")
+            .expect("Operation should succeed")
+            .build()
+            .expect("Test operation should succeed");
+
+        assert_eq!(blte.chunks.len(), 4); // "plain", "hell", "o", "wor"
+        let decrypted = blte
+            .decompress_with_keys(&key_store)
+            .expect("Test operation should succeed");
+        assert_eq!(decrypted, b"plainhellowor");
     }
 
     #[test]
